@@ -231,6 +231,26 @@ def decide(h, workdir, prop):
     return res
 
 
+# ----------------------------------------------------------------------------- cost table
+COSTS = os.path.join(HERE, "costs.json")
+
+
+def load_costs():
+    if os.path.exists(COSTS):
+        return json.load(open(COSTS))
+    return {}
+
+
+def record_costs(results, harnesses):
+    costs = load_costs()
+    tmo = {h.hid: h.timeout for h in harnesses}
+    for r in results:
+        if r["status"] in ("CONFIRMED", "REFUTED", "UNKNOWN"):
+            costs[r["id"]] = {"status": r["status"], "cpu": r.get("cpu_s", 0), "timeout": tmo.get(r["id"], 0)}
+    with open(COSTS, "w") as f:
+        json.dump(costs, f, indent=0, sort_keys=True)
+
+
 # ----------------------------------------------------------------------------- known findings
 def load_known(prop):
     p = os.path.join(VERIF, "known_findings.json")
@@ -255,6 +275,22 @@ def run_check(prop, tier, only=None, keep=False, extra=None):
     harnesses = gen.harnesses(tier)
     if only:
         harnesses = [h for h in harnesses if only in h.hid]
+    costs = load_costs()
+    deferred = []
+    if tier == "quick" and not only:
+        keep = []
+        for h in harnesses:
+            c = costs.get(h.hid)
+            # a harness that did not decide within the quick budget on the reference tree is left to the thorough tier
+            if c and c.get("status") == "UNKNOWN" and c.get("timeout", 0) >= h.timeout:
+                deferred.append(h.hid)
+            else:
+                keep.append(h)
+        harnesses = keep
+    for h in harnesses:
+        c = costs.get(h.hid)
+        if c and c.get("status") in ("CONFIRMED", "REFUTED"):
+            h.timeout = int(min(max(h.timeout if tier == "thorough" else 0, 20, 4 * c.get("cpu", 0)), 900))
     ids = [h.hid for h in harnesses]
     assert len(ids) == len(set(ids)), "duplicate harness ids: %s" % [i for i in ids if ids.count(i) > 1]
     workdir = tempfile.mkdtemp(prefix="verif_%s_" % prop)
@@ -285,6 +321,8 @@ def run_check(prop, tier, only=None, keep=False, extra=None):
         else:
             print("workdir kept:", workdir)
     results.sort(key=lambda r: ids.index(r["id"]))
+    if os.environ.get("VERIF_RECORD_COSTS") == "1":
+        record_costs(results, harnesses)
 
     known = load_known(prop)
     violations = []
@@ -363,6 +401,7 @@ def run_check(prop, tier, only=None, keep=False, extra=None):
             "engine_cpu_s": round(sum(r.get("cpu_s", 0) or 0 for r in results), 1),
             "repo_functions_encoded": funcs,
             "inconclusive": [r["id"] for r in results if r["status"] not in ("CONFIRMED", "REFUTED")],
+            "deferred_to_thorough": deferred,
             "kernel_queries": pre.get("samples", []),
             "known_findings_hit": [{"harness": r["id"], "what": k["what"]} for k, r in known_hits],
         },
